@@ -95,9 +95,13 @@ class StateView:
 class Ctx:
     """What a spec clause sees: parameters as z3 Val terms, result, pre/post state views."""
 
-    def __init__(self, eng, params, pre: State, post: State | None, result=None, exc=None):
+    def __init__(self, eng, params, pre: State, post: State | None, result=None, exc=None, assuming=False):
         self._params = params
         self.eng = eng
+        # True when the clause is being *assumed* (a precondition inside the function's own proof, a postcondition at a
+        # call site), False when it is a goal: lets a spec state a universal fact quantified as a hypothesis and for
+        # an arbitrary constant as a goal
+        self.assuming = assuming
         self.pre = StateView(eng, pre)
         self.post = StateView(eng, post) if post is not None else None
         self.result = result
@@ -161,8 +165,8 @@ class Contract:
         self.ensures_on_raise_.append((name, fn))
         return self
 
-    def loop(self, ordinal, invariant=None, frame=None, decreases=None, lists=True, ghost=(), single_iteration=None, sets=False, allocates=False):
-        self.loops[ordinal] = LoopSpec(invariant, frame, decreases, lists, ghost=ghost, single_iteration=single_iteration, sets=sets, allocates=allocates)
+    def loop(self, ordinal, invariant=None, frame=None, decreases=None, lists=True, ghost=(), single_iteration=None, sets=False, allocates=False, aux=()):
+        self.loops[ordinal] = LoopSpec(invariant, frame, decreases, lists, ghost=ghost, single_iteration=single_iteration, sets=sets, allocates=allocates, aux=aux)
         return self
 
     def modifies(self, *fields, lists=False, sets=False):
@@ -226,14 +230,21 @@ class Contract:
                 eng.havoc_heap(st_r, self.modifies_)
             self._havoc_lists(st_r)
             if cond is not None:
-                st_r.assume(cond(Ctx(eng, bound, pre, st_r)))
+                st_r.assume(cond(Ctx(eng, bound, pre, st_r, assuming=True)))
             for nm, fn in self.ensures_on_raise_:
-                st_r.assume(fn(Ctx(eng, bound, pre, st_r, exc=exc_cls)))
+                st_r.assume(fn(Ctx(eng, bound, pre, st_r, exc=exc_cls, assuming=True)))
             if eng.feasible(st_r):
                 yield st_r, Raise(Exc(exc_cls, (), note=f"from contract {self.key}"))
         if self.modifies_:
             eng.havoc_heap(st, self.modifies_)
         self._havoc_lists(st)
+        for nm in getattr(self, "modifies_aux", ()):  # library-state arrays (deque histories, map mutations ...)
+            if nm in st.aux and z3.is_expr(st.aux[nm]):
+                st.aux[nm] = z3.Const(V.fresh_name(nm), st.aux[nm].sort())
+        for g in getattr(self, "modifies_ghost", ()):
+            cur = st.ghost.get(g)
+            if cur is not None and z3.is_expr(cur):
+                st.ghost[g] = z3.Const(V.fresh_name(f"ghost_{g}"), cur.sort())
         res = V.fresh_val("res_" + self.qualname.replace(".", "_"))
         st.assume(eng.external_ref_fact(st, res))
         hint = None
@@ -242,7 +253,7 @@ class Contract:
                 self.result_type.bind(eng)
             st.assume(self.result_type.pred(res))
             hint = self.result_type.hint
-        ctx = Ctx(eng, bound, pre, st, result=res)
+        ctx = Ctx(eng, bound, pre, st, result=res, assuming=True)
         for nm, fn in self.ensures_:
             st.assume(fn(ctx))
         if eng.feasible(st):
@@ -390,7 +401,7 @@ def _verify(con: Contract, pack: Pack, modular_contracts: dict, res: FuncResult)
             st.assume(et.pred(term))
             argvals.append(SV(term, hint=et.hint))
     pre = st.copy()
-    ctx0 = Ctx(eng, params, pre, pre)
+    ctx0 = Ctx(eng, params, pre, pre, assuming=True)
     for nm, fn in con.requires_:
         st.assume(fn(ctx0))
     pre = st.copy()
@@ -452,7 +463,7 @@ def _verify_live(eng, con, pack, modular_contracts, res, mod):
         params[n] = term
         argvals.append(SV(term, hint=t.hint))
     pre = st.copy()
-    ctx0 = Ctx(eng, params, pre, pre)
+    ctx0 = Ctx(eng, params, pre, pre, assuming=True)
     for nm, fn in con.requires_:
         st.assume(fn(ctx0))
     pre = st.copy()
